@@ -2545,6 +2545,39 @@ def C07(tier, seed, st):
         if dev > 8:
             res.violation(stream="G", case=gl[0], impl="byte 0x%02x occurs %d times in %d bytes (%.1f sigma)" % (worst, cnt[worst], N, dev), model="",
                           spec="uniform bytes", why="default-source entropy bytes are not uniformly distributed")
+    # (3b) draws of MIXED sizes from the default source in ONE process (a buffered or pooled wrapper around the source
+    # shows at its refill boundaries, which calls of a single size may never straddle): every entropy decodes, all are
+    # distinct, and none contains a run of 9 or more equal bytes - the mark of a buffer that was only partly filled
+    # (chance for a sound source: < 32 * 2^-64 per draw, below 2^-44 for the 20 000 draws of the thorough tier)
+    per2 = 16 if q else 64
+    gm = ["G %d %s %d" % (WORD_COUNTS[(k * 3 + k // 5) % 5], rng.choice(LANGS), per2) for k in range(80 if q else 320)]
+    gmi = common.run_impl(gm, shards=1)
+    dm = []
+    for ln, r in zip(gm, gmi):
+        for mn in r.split(","):
+            dm.append("D %s %s" % (ln.split()[2], mn))
+    decm = common.run_model(dm, "spec")
+    res.evaluations += len(dm)
+    res.count("G/default-source-mixed", len(dm))
+    seen_m = set()
+    for a, b in zip(dm, decm):
+        if not b.startswith("ent "):
+            res.violation(stream="G", case=a, impl=b, model="", spec="a decodable mnemonic", why="default-source NewMnemonic output (mixed sizes, one process) does not decode")
+            break
+        e = bytes.fromhex(b[4:])
+        run = best = 1
+        for x, y in zip(e, e[1:]):
+            run = run + 1 if x == y else 1
+            best = max(best, run)
+        if best >= 9:
+            res.violation(stream="G", case=a, impl=b, model="", spec="entropy from the OS CSPRNG",
+                          why="default-source entropy contains a run of %d equal bytes: a partly filled buffer, not CSPRNG output (calls of mixed sizes in one process)" % best)
+            break
+        if b in seen_m:
+            res.violation(stream="G", case=a, impl=b, model="", spec="pairwise distinct", why="the default source repeated an entropy (mixed sizes, one process)")
+            break
+        seen_m.add(b)
+    res.nontrivial.add("G-mixed")
     # (4) the same draws made CONCURRENTLY (the default source is shared by all goroutines)
     ok, log = common.build_race()
     if ok:
